@@ -17,10 +17,11 @@ def _job(arg):
     pname, mode, seed, opts = arg
     P = profile_mod(pname)
     scn = P.generate(seed, mode, opts) if opts is not None else P.generate(seed, mode)
-    res = procs.in_child(P.execute, scn, timeout=60)
+    if hasattr(P, "run"):
+        res = P.run(scn)  # the profile forks its own children (session + fresh oracles)
+    else:
+        res = procs.in_child(P.execute, scn, timeout=60)
     res["seed"] = seed
-    if res.get("nontrivial") and "sample" not in res and (seed % 97 == 0 or True):
-        pass
     return res
 
 
